@@ -95,6 +95,16 @@ def language(pattern):
     return tr(sre_parse.parse(pattern))
 
 
+def match_language(pattern):
+    """Language of the strings s for which `re.compile(pattern).match(s)` succeeds: anchored at the start by `match` itself; anchored at the
+    end only if the pattern says so (`$` / `\\Z` as its last item) - otherwise any continuation is accepted.  (`$` before a trailing newline
+    is not modelled: callers intersect with newline-free strings.)"""
+    items = list(sre_parse.parse(pattern))
+    end_anchored = bool(items) and str(items[-1][0]) == "AT" and str(items[-1][1]) in ("AT_END", "AT_END_STRING")
+    core = tr(items)
+    return core if end_anchored else z3.Concat(core, z3.Full(z3.ReSort(z3.StringSort())))
+
+
 def equivalent(a, b, timeout_ms=20000):
     """-> ('unsat' = equivalent | 'sat' | 'unknown', witness string or None)"""
     s = z3.String("w")
